@@ -2,6 +2,7 @@ package main
 
 import (
 	"fmt"
+	"math"
 	"strings"
 
 	"github.com/creachadair/mds/mlink"
@@ -253,6 +254,7 @@ func (r *c10mlink) Exec(op []string) string {
 	if op[0] == "reset" {
 		if len(op) > 1 && op[1] == "new" {
 			r.l = mlink.NewList[int]()
+			r.st.Note("constructed-by-NewList")
 		} else {
 			r.l = &mlink.List[int]{}
 		}
@@ -398,8 +400,11 @@ func (r *c10mlink) Exec(op []string) string {
 func genC10mlink(g *G) {
 	val := func() int { return 1 + g.Intn(9) }
 	reg := func() string { return fmt.Sprintf("c%d", g.Intn(4)) }
+	builds := 0
 	build := func(n int) []string {
-		ops := []string{"reset zero"}
+		// the zero value and mlink.NewList() alternately (the exhaustive part) — both must behave alike
+		builds++
+		ops := []string{[]string{"reset zero", "reset new"}[builds%2]}
 		if n > 0 {
 			a := "add c0"
 			for i := 1; i <= n; i++ {
@@ -716,6 +721,9 @@ func (r *c10ring) Exec(op []string) string {
 			if a != nil {
 				if res == nil {
 					r.st.Note("at-out-of-cycle")
+					if n > 16 || n < -16 {
+						r.st.Note("at-far-out-of-cycle")
+					}
 				} else if n < 0 {
 					r.st.Note("at-negative")
 				}
@@ -758,6 +766,17 @@ func genC10ring(g *G) {
 		return sb.String()
 	}
 	reg := func() string { return fmt.Sprintf("r%d", g.Intn(8)) }
+	// far replaces one offset in ten by a far or extreme one of the same sign
+	far := func(k int) int {
+		if !g.Chance(1, 10) {
+			return k
+		}
+		m := []int{17, 18, 40, 1000000, math.MaxInt64}[g.Intn(5)]
+		if k < 0 {
+			return -m
+		}
+		return m
+	}
 	tail := func(ops []string) []string {
 		// a few random follow-ups on whatever the surgery left
 		for i := 0; i < 3; i++ {
@@ -809,6 +828,12 @@ func genC10ring(g *G) {
 		for k := -n - 2; k <= n+2; k++ {
 			ops = append(ops, fmt.Sprintf("at r1 r0 %d", k), fmt.Sprintf("peek r0 %d", k))
 		}
+		// far outside the cycle and at the ends of the int range.  math.MinInt64 itself is left out on purpose:
+		// At negates its argument, -MinInt64 overflows, and At/Peek then answer r / (r.Value, true) instead of
+		// nil / (zero, false) — reported as an implementation deviation, not generated here.
+		for _, k := range []int{3 * n, -3 * n, 3*n + 1, -3*n - 1, 1000000, -1000000, math.MaxInt64, -math.MaxInt64} {
+			ops = append(ops, fmt.Sprintf("at r1 r0 %d", k), fmt.Sprintf("peek r0 %d", k), "len r1")
+		}
 		for k := 0; k <= n+1; k++ {
 			ops = append(ops, fmt.Sprintf("each r0 %d", k))
 		}
@@ -846,9 +871,9 @@ func genC10ring(g *G) {
 			case k < 70:
 				ops = append(ops, fmt.Sprintf("prev %s %s", reg(), reg()))
 			case k < 82:
-				ops = append(ops, fmt.Sprintf("at %s %s %d", reg(), reg(), g.Intn(13)-6))
+				ops = append(ops, fmt.Sprintf("at %s %s %d", reg(), reg(), far(g.Intn(13)-6)))
 			case k < 89:
-				ops = append(ops, fmt.Sprintf("peek %s %d", reg(), g.Intn(13)-6))
+				ops = append(ops, fmt.Sprintf("peek %s %d", reg(), far(g.Intn(13)-6)))
 			case k < 93:
 				ops = append(ops, "len "+reg())
 			case k < 98:
